@@ -1,6 +1,6 @@
-(* C10 tie, part D (barycentric test): the definitions traced from /repo on this run equal the reference model
-   (coq/theories/C10/Model.v) for ALL real inputs, under the property's own guards only (non-zero
-   triangle area; ray not parallel to the plane).  Compiled on every run against Run.GenC10. *)
+(* C10 tie, part D (barycentric hit flag): the definitions traced from /repo on this run equal the reference model
+   (coq/theories/C10/Model.v) for ALL real inputs, under the property's own guards only (non-zero triangle
+   area; ray not parallel to the plane).  Compiled on every run against Run.GenC10. *)
 From Coq Require Import Reals Lra Bool.
 From OdakV Require Import Base.RealAux Base.Vec3 C10.Model C10.Lemmas.
 From Run Require Import GenC10.
@@ -8,6 +8,29 @@ Open Scope R_scope.
 
 Ltac v3' := repeat progress (unfold vdot, vcross, vadd, vsub, vscale, vx, vy, vz in *; cbn [fst snd] in *).
 Ltac open_model := repeat progress (unfold tri_normal, tri_raw_normal, centroid, plane_dist, hit_point, bary_u, bary_v in *); v3'.
+(* unfold the model down to coordinates but keep the norm |raw| of the triangle at hand as ONE atom N; every sqrt in
+   the traced term must be that same norm (checked by ring on its argument) *)
+Ltac open_with Hn :=
+  open_model;
+  match type of Hn with 0 < ?n =>
+    let N := fresh "N" in
+    set (N := n) in *;
+    repeat match goal with |- context [sqrt ?a] =>
+      replace (sqrt a) with N by (subst N; unfold vnorm, vnorm2; f_equal; v3'; ring) end;
+    clearbody N
+  end.
+Ltac fin := field; repeat split; first [assumption | lra].
+(* boolean hit flag: compare as propositions; every comparison atom of the traced flag is identified with the
+   model's barycentric coordinate it equals (field decides which), whatever the order of the conjuncts *)
+Ltac not_bary X := lazymatch X with bary_u _ _ _ _ => fail | bary_v _ _ _ _ => fail | _ => idtac end.
+Ltac flag_tie t0 t1 t2 pt eqtac :=
+  apply eq_true_iff_eq; unfold inside_flag; rewrite !andb_true_iff, !Rleb_true, !Rltb_true;
+  repeat match goal with
+  | |- context [Rle 0 ?X] => not_bary X;
+      first [ replace X with (bary_u t0 t1 t2 pt) by eqtac | replace X with (bary_v t0 t1 t2 pt) by eqtac ]
+  end;
+  split; intros; repeat split; lra.
+
 
 Section Single.
 Variables t_0_0 t_0_1 t_0_2 t_1_0 t_1_1 t_1_2 t_2_0 t_2_1 t_2_2 : R.
@@ -26,31 +49,71 @@ Lemma norm_pos : 0 < vnorm raw.
 Proof. apply vnorm_pos, vnorm2_pos, nondeg. Qed.
 Lemma gram_pos : 0 < vnorm2 raw.
 Proof. apply vnorm2_pos, nondeg. Qed.
-(* unfold the model down to coordinates but keep |raw| as one atom N; every sqrt in the traced term
-   must be that same norm (checked by ring on its argument) *)
-Ltac open :=
-  pose proof norm_pos as Hn; unfold raw, t0, t1, t2, o, d, p in *; open_model;
-  match type of Hn with 0 < ?n =>
-    let N := fresh "N" in
-    set (N := n) in *;
-    repeat match goal with |- context [sqrt ?a] =>
-      replace (sqrt a) with N by (subst N; unfold vnorm, vnorm2; f_equal; v3'; ring) end;
-    clearbody N
-  end.
-Ltac fin := field; repeat split; first [assumption | lra].
-
 Lemma gram_open : 0 < vdot (vsub t2 t0) (vsub t2 t0) * vdot (vsub t1 t0) (vsub t1 t0) - vdot (vsub t2 t0) (vsub t1 t0) * vdot (vsub t2 t0) (vsub t1 t0).
 Proof. pose proof gram_pos as G. unfold raw in G. rewrite <- gram_is_area in G. exact G. Qed.
-Lemma t_u_ok : t_u t_0_0 t_0_1 t_0_2 t_1_0 t_1_1 t_1_2 t_2_0 t_2_1 t_2_2 p_0_0 p_0_1 p_0_2 = bary_u t0 t1 t2 p.
-Proof. pose proof gram_open as G. unfold t_u. open. field. lra. Qed.
-Lemma t_v_ok : t_v t_0_0 t_0_1 t_0_2 t_1_0 t_1_1 t_1_2 t_2_0 t_2_1 t_2_2 p_0_0 p_0_1 p_0_2 = bary_v t0 t1 t2 p.
-Proof. pose proof gram_open as G. unfold t_v. open. field. lra. Qed.
+Ltac open := pose proof norm_pos as Hn; unfold raw, t0, t1, t2, o, d, p in *; open_with Hn.
+
 Lemma t_flag_ok : t_flag t_0_0 t_0_1 t_0_2 t_1_0 t_1_1 t_1_2 t_2_0 t_2_1 t_2_2 p_0_0 p_0_1 p_0_2 = inside_flag t0 t1 t2 p.
 Proof.
-  change (t_flag t_0_0 t_0_1 t_0_2 t_1_0 t_1_1 t_1_2 t_2_0 t_2_1 t_2_2 p_0_0 p_0_1 p_0_2) with ((Rleb 0 (t_u t_0_0 t_0_1 t_0_2 t_1_0 t_1_1 t_1_2 t_2_0 t_2_1 t_2_2 p_0_0 p_0_1 p_0_2) && Rleb 0 (t_v t_0_0 t_0_1 t_0_2 t_1_0 t_1_1 t_1_2 t_2_0 t_2_1 t_2_2 p_0_0 p_0_1 p_0_2)) && Rltb (t_u t_0_0 t_0_1 t_0_2 t_1_0 t_1_1 t_1_2 t_2_0 t_2_1 t_2_2 p_0_0 p_0_1 p_0_2 + t_v t_0_0 t_0_1 t_0_2 t_1_0 t_1_1 t_1_2 t_2_0 t_2_1 t_2_2 p_0_0 p_0_1 p_0_2) 1).
-  rewrite t_u_ok, t_v_ok. reflexivity.
+  pose proof gram_open as G. unfold t_flag.
+  flag_tie t0 t1 t2 p ltac:(unfold t0, t1, t2, p in *; open_model; field; lra).
 Qed.
-(* the flag intersect_w_triangle computes is the flag of the traced hit point *)
-Lemma t_hitflag_is_flag_of_hit : t_hitflag t_0_0 t_0_1 t_0_2 t_1_0 t_1_1 t_1_2 t_2_0 t_2_1 t_2_2 r_0_0_0 r_0_0_1 r_0_0_2 r_0_1_0 r_0_1_1 r_0_1_2 = t_flag t_0_0 t_0_1 t_0_2 t_1_0 t_1_1 t_1_2 t_2_0 t_2_1 t_2_2 (t_hit_0 t_0_0 t_0_1 t_0_2 t_1_0 t_1_1 t_1_2 t_2_0 t_2_1 t_2_2 r_0_0_0 r_0_0_1 r_0_0_2 r_0_1_0 r_0_1_1 r_0_1_2) (t_hit_1 t_0_0 t_0_1 t_0_2 t_1_0 t_1_1 t_1_2 t_2_0 t_2_1 t_2_2 r_0_0_0 r_0_0_1 r_0_0_2 r_0_1_0 r_0_1_1 r_0_1_2) (t_hit_2 t_0_0 t_0_1 t_0_2 t_1_0 t_1_1 t_1_2 t_2_0 t_2_1 t_2_2 r_0_0_0 r_0_0_1 r_0_0_2 r_0_1_0 r_0_1_1 r_0_1_2).
-Proof. reflexivity. Qed.
 End Single.
+
+Section TwoPoints.
+Variables t_0_0 t_0_1 t_0_2 t_1_0 t_1_1 t_1_2 t_2_0 t_2_1 t_2_2 : R.
+Variables p_0_0 p_0_1 p_0_2 p_1_0 p_1_1 p_1_2 : R.
+Let t0 : V3 := (t_0_0, t_0_1, t_0_2).
+Let t1 : V3 := (t_1_0, t_1_1, t_1_2).
+Let t2 : V3 := (t_2_0, t_2_1, t_2_2).
+Hypothesis nondeg : tri_raw_normal t0 t1 t2 <> vzero.
+Lemma gram2 : 0 < vdot (vsub t2 t0) (vsub t2 t0) * vdot (vsub t1 t0) (vsub t1 t0) - vdot (vsub t2 t0) (vsub t1 t0) * vdot (vsub t2 t0) (vsub t1 t0).
+Proof. pose proof (vnorm2_pos _ nondeg) as G. rewrite <- gram_is_area in G. exact G. Qed.
+Lemma tf2_flag_0_ok : tf2_flag_0 t_0_0 t_0_1 t_0_2 t_1_0 t_1_1 t_1_2 t_2_0 t_2_1 t_2_2 p_0_0 p_0_1 p_0_2 p_1_0 p_1_1 p_1_2 = inside_flag t0 t1 t2 (p_0_0, p_0_1, p_0_2).
+Proof.
+  pose proof gram2 as G. unfold tf2_flag_0.
+  flag_tie t0 t1 t2 (p_0_0, p_0_1, p_0_2) ltac:(unfold t0, t1, t2 in *; open_model; field; lra).
+Qed.
+Lemma tf2_flag_1_ok : tf2_flag_1 t_0_0 t_0_1 t_0_2 t_1_0 t_1_1 t_1_2 t_2_0 t_2_1 t_2_2 p_0_0 p_0_1 p_0_2 p_1_0 p_1_1 p_1_2 = inside_flag t0 t1 t2 (p_1_0, p_1_1, p_1_2).
+Proof.
+  pose proof gram2 as G. unfold tf2_flag_1.
+  flag_tie t0 t1 t2 (p_1_0, p_1_1, p_1_2) ltac:(unfold t0, t1, t2 in *; open_model; field; lra).
+Qed.
+End TwoPoints.
+
+Section BatchPoints.
+Variables t_0_0_0 t_0_0_1 t_0_0_2 t_0_1_0 t_0_1_1 t_0_1_2 t_0_2_0 t_0_2_1 t_0_2_2 t_1_0_0 t_1_0_1 t_1_0_2 t_1_1_0 t_1_1_1 t_1_1_2 t_1_2_0 t_1_2_1 t_1_2_2 : R.
+Variables p_0_0_0 p_0_0_1 p_0_0_2 p_0_1_0 p_0_1_1 p_0_1_2 p_1_0_0 p_1_0_1 p_1_0_2 p_1_1_0 p_1_1_1 p_1_1_2 : R.
+Let t0_0 : V3 := (t_0_0_0, t_0_0_1, t_0_0_2).
+Let t0_1 : V3 := (t_0_1_0, t_0_1_1, t_0_1_2).
+Let t0_2 : V3 := (t_0_2_0, t_0_2_1, t_0_2_2).
+Hypothesis nondeg0 : tri_raw_normal t0_0 t0_1 t0_2 <> vzero.
+Lemma gramb0 : 0 < vdot (vsub t0_2 t0_0) (vsub t0_2 t0_0) * vdot (vsub t0_1 t0_0) (vsub t0_1 t0_0) - vdot (vsub t0_2 t0_0) (vsub t0_1 t0_0) * vdot (vsub t0_2 t0_0) (vsub t0_1 t0_0).
+Proof. pose proof (vnorm2_pos _ nondeg0) as G. rewrite <- gram_is_area in G. exact G. Qed.
+Let t1_0 : V3 := (t_1_0_0, t_1_0_1, t_1_0_2).
+Let t1_1 : V3 := (t_1_1_0, t_1_1_1, t_1_1_2).
+Let t1_2 : V3 := (t_1_2_0, t_1_2_1, t_1_2_2).
+Hypothesis nondeg1 : tri_raw_normal t1_0 t1_1 t1_2 <> vzero.
+Lemma gramb1 : 0 < vdot (vsub t1_2 t1_0) (vsub t1_2 t1_0) * vdot (vsub t1_1 t1_0) (vsub t1_1 t1_0) - vdot (vsub t1_2 t1_0) (vsub t1_1 t1_0) * vdot (vsub t1_2 t1_0) (vsub t1_1 t1_0).
+Proof. pose proof (vnorm2_pos _ nondeg1) as G. rewrite <- gram_is_area in G. exact G. Qed.
+Lemma tbf_flag_0_0_ok : tbf_flag_0_0 t_0_0_0 t_0_0_1 t_0_0_2 t_0_1_0 t_0_1_1 t_0_1_2 t_0_2_0 t_0_2_1 t_0_2_2 t_1_0_0 t_1_0_1 t_1_0_2 t_1_1_0 t_1_1_1 t_1_1_2 t_1_2_0 t_1_2_1 t_1_2_2 p_0_0_0 p_0_0_1 p_0_0_2 p_0_1_0 p_0_1_1 p_0_1_2 p_1_0_0 p_1_0_1 p_1_0_2 p_1_1_0 p_1_1_1 p_1_1_2 = inside_flag t0_0 t0_1 t0_2 (p_0_0_0, p_0_0_1, p_0_0_2).
+Proof.
+  pose proof gramb0 as G. unfold tbf_flag_0_0.
+  flag_tie t0_0 t0_1 t0_2 (p_0_0_0, p_0_0_1, p_0_0_2) ltac:(unfold t0_0, t0_1, t0_2 in *; open_model; field; lra).
+Qed.
+Lemma tbf_flag_0_1_ok : tbf_flag_0_1 t_0_0_0 t_0_0_1 t_0_0_2 t_0_1_0 t_0_1_1 t_0_1_2 t_0_2_0 t_0_2_1 t_0_2_2 t_1_0_0 t_1_0_1 t_1_0_2 t_1_1_0 t_1_1_1 t_1_1_2 t_1_2_0 t_1_2_1 t_1_2_2 p_0_0_0 p_0_0_1 p_0_0_2 p_0_1_0 p_0_1_1 p_0_1_2 p_1_0_0 p_1_0_1 p_1_0_2 p_1_1_0 p_1_1_1 p_1_1_2 = inside_flag t0_0 t0_1 t0_2 (p_0_1_0, p_0_1_1, p_0_1_2).
+Proof.
+  pose proof gramb0 as G. unfold tbf_flag_0_1.
+  flag_tie t0_0 t0_1 t0_2 (p_0_1_0, p_0_1_1, p_0_1_2) ltac:(unfold t0_0, t0_1, t0_2 in *; open_model; field; lra).
+Qed.
+Lemma tbf_flag_1_0_ok : tbf_flag_1_0 t_0_0_0 t_0_0_1 t_0_0_2 t_0_1_0 t_0_1_1 t_0_1_2 t_0_2_0 t_0_2_1 t_0_2_2 t_1_0_0 t_1_0_1 t_1_0_2 t_1_1_0 t_1_1_1 t_1_1_2 t_1_2_0 t_1_2_1 t_1_2_2 p_0_0_0 p_0_0_1 p_0_0_2 p_0_1_0 p_0_1_1 p_0_1_2 p_1_0_0 p_1_0_1 p_1_0_2 p_1_1_0 p_1_1_1 p_1_1_2 = inside_flag t1_0 t1_1 t1_2 (p_1_0_0, p_1_0_1, p_1_0_2).
+Proof.
+  pose proof gramb1 as G. unfold tbf_flag_1_0.
+  flag_tie t1_0 t1_1 t1_2 (p_1_0_0, p_1_0_1, p_1_0_2) ltac:(unfold t1_0, t1_1, t1_2 in *; open_model; field; lra).
+Qed.
+Lemma tbf_flag_1_1_ok : tbf_flag_1_1 t_0_0_0 t_0_0_1 t_0_0_2 t_0_1_0 t_0_1_1 t_0_1_2 t_0_2_0 t_0_2_1 t_0_2_2 t_1_0_0 t_1_0_1 t_1_0_2 t_1_1_0 t_1_1_1 t_1_1_2 t_1_2_0 t_1_2_1 t_1_2_2 p_0_0_0 p_0_0_1 p_0_0_2 p_0_1_0 p_0_1_1 p_0_1_2 p_1_0_0 p_1_0_1 p_1_0_2 p_1_1_0 p_1_1_1 p_1_1_2 = inside_flag t1_0 t1_1 t1_2 (p_1_1_0, p_1_1_1, p_1_1_2).
+Proof.
+  pose proof gramb1 as G. unfold tbf_flag_1_1.
+  flag_tie t1_0 t1_1 t1_2 (p_1_1_0, p_1_1_1, p_1_1_2) ltac:(unfold t1_0, t1_1, t1_2 in *; open_model; field; lra).
+Qed.
+End BatchPoints.
